@@ -515,7 +515,8 @@ class IH5Group(IH5InnerNode):
         if nodes[-1]._gpath != path or _node_is_del_mark(nodes[-1]):
             suf_segs = nodes[-1]._rel_path(path).split("/")
             # create "overwrite" group in most recent patch...
-            self.create_group(f"{nodes[-1]._gpath}/{suf_segs[0]}")
+            pref = nodes[-1]._gpath if nodes[-1]._gpath != "/" else ""
+            self.create_group(f"{pref}/{suf_segs[0]}")
             # ... and create (nested) virtual group node(s), if needed
             if len(suf_segs) > 1:
                 self._files[-1].create_group(path)
@@ -567,6 +568,12 @@ class IH5Group(IH5InnerNode):
             raise ValueError(f"Cannot create group, {nodes[-1]._gpath} is a dataset!")
         if nodes[-1]._gpath == path:
             raise ValueError("Cannot create group, it already exists!")
+
+        # first missing ancestor must be created as overwriting group
+        pref = nodes[-1]._gpath if nodes[-1]._gpath != "/" else ""
+        first = f"{pref}/{nodes[-1]._rel_path(path).split('/')[0]}"
+        if first != path:
+            self.create_group(first)
 
         # remove "deleted" marker, if set at current path in current patch container
         if path in self._files[-1] and _node_is_del_mark(self._files[-1][path]):
